@@ -14,7 +14,7 @@ RULE = (
     ">=2 variables written and at least one line rejected; state = (variables, counters, record)"
 )
 BOUNDS = {
-    "quick": "930 ordered pairs x {no filter, filter first, filter last} x 20 files x window *; pairs x 6 files x windows {1*, 1-2}",
+    "quick": "all ordered writer pairs x {no filter, filter first, filter last} x 20 files x window *; pairs x 6 files x windows {1*, 1-2}; filtered pairs x 3 files under return-mode no-matches",
     "thorough": "pairs x 3 filters x 3 positions x all 259 files of <=3 records x 3 windows; triples over a 12-writer subset x 20 files",
 }
 CHUNK = 60
@@ -130,6 +130,11 @@ def cases(tier, seed):
     for comps in programs(tier):
         for f in files:
             yield {"comps": comps, "file": f, "scan": [["all"]]}
+    # return-mode: no-matches - the counters and variables are those of the default mode, the returned lines are the complement
+    for comps in programs("quick"):
+        if len(comps) == 3:
+            for f in ("pq", "pqp", "bqpq"):
+                yield {"comps": comps, "file": f, "scan": [["all"]], "rm": True}
     if tier == "quick":
         pairs = list(itertools.permutations(range(len(WRITERS)), 2))
         for a, b in pairs:
@@ -198,8 +203,11 @@ def run_case(case):
         return na
     path = sandbox.write_csv(rows)
     text = f"${path}[{refscan.render(case['scan'])}]{refinterp.render_match(comps)}"
+    if case.get("rm"):
+        text = "~ return-mode: no-matches ~ " + text
+        ret = [t["i"] for t in it.trace if t.get("i") is not None and t["i"] not in set(ret)]
     o = run.run_csvpath(text)
-    cstr = f"scan=[{refscan.render(case['scan'])}] file={case['file']} match={refinterp.render_match(comps)}"
+    cstr = f"{'return-mode=no-matches ' if case.get('rm') else ''}scan=[{refscan.render(case['scan'])}] file={case['file']} match={refinterp.render_match(comps)}"
     viol = []
     names = _names(case["comps"])
 
